@@ -1,7 +1,9 @@
 NOTES = ("All checks: ./check <ID> [--tier quick|thorough]; seeds derive from VERIF_SEED (rapid seed = VERIF_SEED*1000+shard+1). "
          "Exit 2 = inconclusive (build failure, timeout, fewer cases than requested), never a violation. "
          "Genuine defects found by the checks were repaired by 'fix:' commits in /repo and are listed in known_findings.json; "
-         "their shrunk inputs are replayed on every run from regress/<ID>/.")
+         "their shrunk inputs are replayed on every run from regress/<ID>/. Eight findings are recorded as open (status known: C06 x2, C11, C14, C19 x4) "
+         "and are printed as KNOWN-FINDING lines with exit 0; any other violation of the same property has a different signature and is reported as VIOLATION. "
+         "360 independently seeded property-breaking changes are kept under seeded/ (DESIGN.md section 5).")
 
 NOT_APPLICABLE = {}
 
